@@ -25,8 +25,14 @@ func (w *writeInPlaceHandlerImpl) CreateTempFile() (*os.File, error) {
 	if err != nil {
 		return nil, err
 	}
+	if err = verifStep("input.stat"); err != nil {
+		return nil, err
+	}
 	info, err := os.Stat(w.inputFilename)
 	if err != nil {
+		return nil, err
+	}
+	if err = verifStep("temp.chmod"); err != nil {
 		return nil, err
 	}
 	err = os.Chmod(file.Name(), info.Mode())
@@ -35,6 +41,9 @@ func (w *writeInPlaceHandlerImpl) CreateTempFile() (*os.File, error) {
 		return nil, err
 	}
 
+	if err = verifStep("temp.chown"); err != nil {
+		return nil, err
+	}
 	if err = changeOwner(info, file); err != nil {
 		return nil, err
 	}
@@ -45,6 +54,7 @@ func (w *writeInPlaceHandlerImpl) CreateTempFile() (*os.File, error) {
 
 func (w *writeInPlaceHandlerImpl) FinishWriteInPlace(evaluatedSuccessfully bool) error {
 	log.Debug("Going to write in place, evaluatedSuccessfully=%v, target=%v", evaluatedSuccessfully, w.inputFilename)
+	_ = verifStep("temp.close")
 	safelyCloseFile(w.tempFile)
 	if evaluatedSuccessfully {
 		log.Debug("Moving temp file to target")
